@@ -27,6 +27,7 @@ RULE = (
     "fresh: Hypothesis-generated structures/options run A, B, A in-process and once in a fresh "
     "process with a random hash seed.  Non-trivial = history in which a pair is re-run after >= 1 "
     "different or failing run (A..B..A); fresh: always."
+    ' Pool and fresh cases include neutral termini on ASN / GLN / HIS ends, id-less hidden chains with --keep-chain and protein + RNA files.'
 )
 ASSUMPTIONS = [
     "single-threaded code: schedules are not a dimension; hash seeds and histories are sampled",
